@@ -63,13 +63,19 @@ Lemma register_spec : forall ds reg n,
   (forall d, find_decl n (register ds reg) = Some d ->
              (In d reg \/ In d ds) /\ d_name d = n) /\
   (find_decl n (register ds reg) = None <->
-   find_decl n reg = None /\ forall d, In d ds -> d_name d <> n).
+   find_decl n reg = None /\ forall d, In d ds -> d_rejected d = false -> d_name d <> n).
 Proof.
   induction ds as [|d r IH]; intros reg n; cbn [register].
   - split.
     + intros d H. destruct (find_decl_some _ _ _ H). auto with datatypes.
     + split; [intros H; split; [exact H | intros d []] | intros [H _]; exact H].
-  - destruct (find_decl (d_name d) reg) as [x|] eqn:F.
+  - destruct (d_rejected d) eqn:Rj.
+    { destruct (IH reg n) as [A B]. split.
+      - intros y Hy. destruct (A y Hy) as [[Hin|Hin] Hn]; auto with datatypes.
+      - rewrite B. split; intros [H1 H2]; (split; [exact H1|]).
+        + intros y [<-|Hy] Hr; [congruence | auto].
+        + intros y Hy Hr. apply H2; auto with datatypes. }
+    destruct (find_decl (d_name d) reg) as [x|] eqn:F.
     + destruct (d_fastly d).
       * set (reg' := map (fun e => if Nat.eqb (d_name e) (d_name d) then d else e) reg).
         destruct (IH reg' n) as [A B]. split.
@@ -82,14 +88,14 @@ Proof.
               ** intros [H _]. discriminate.
               ** intros [H _]. discriminate.
            ++ apply Nat.eqb_neq in E. split.
-              ** intros [H1 H2]. split; [exact H1|]. intros y [<-|Hy]; auto with datatypes.
-              ** intros [H1 H2]. split; [exact H1|]. intros y Hy. apply H2. auto with datatypes.
+              ** intros [H1 H2]. split; [exact H1|]. intros y [<-|Hy] Hr; auto.
+              ** intros [H1 H2]. split; [exact H1|]. intros y Hy Hr. apply H2; auto with datatypes.
       * destruct (IH reg n) as [A B]. split.
         -- intros y Hy. destruct (A y Hy) as [[Hin|Hin] Hn]; auto with datatypes.
         -- rewrite B. split.
-           ++ intros [H1 H2]. split; [exact H1|]. intros y [<-|Hy]; auto with datatypes.
+           ++ intros [H1 H2]. split; [exact H1|]. intros y [<-|Hy] Hr; auto.
               intro E. subst n. congruence.
-           ++ intros [H1 H2]. split; [exact H1|]. intros y Hy. apply H2. auto with datatypes.
+           ++ intros [H1 H2]. split; [exact H1|]. intros y Hy Hr. apply H2; auto with datatypes.
     + destruct (IH (reg ++ [d]) n) as [A B]. split.
       * intros y Hy. destruct (A y Hy) as [[Hin|Hin] Hn]; split; auto with datatypes.
         apply in_app_or in Hin. destruct Hin as [Hin|[<-|[]]]; auto with datatypes.
@@ -97,10 +103,10 @@ Proof.
         -- split; intros [H _]; discriminate.
         -- destruct (Nat.eqb (d_name d) n) eqn:E.
            ++ apply Nat.eqb_eq in E. split; [intros [H _]; discriminate|].
-              intros [_ H]. exfalso. apply (H d); auto with datatypes.
+              intros [_ H]. exfalso. apply (H d (or_introl eq_refl) Rj). exact E.
            ++ apply Nat.eqb_neq in E. split.
-              ** intros [_ H]. split; [reflexivity|]. intros y [<-|Hy]; auto with datatypes.
-              ** intros [_ H]. split; [reflexivity|]. intros y Hy. apply H. auto with datatypes.
+              ** intros [_ H]. split; [reflexivity|]. intros y [<-|Hy] Hr; auto.
+              ** intros [_ H]. split; [reflexivity|]. intros y Hy Hr. apply H; auto with datatypes.
 Qed.
 
 (* ---- build_graph: the callees of a name are those of all its declarations *)
@@ -195,7 +201,7 @@ Qed.
 Lemma reg_none_iff n : find_decl n reg = None <-> find_decl n reg' = None.
 Proof.
   destruct (register_spec ds [] n) as [_ B]. destruct (register_spec ds' [] n) as [_ B'].
-  unfold reg, reg'. rewrite B, B'. cbn. split; intros [_ H]; split; auto; intros d Hd; apply H.
+  unfold reg, reg'. rewrite B, B'. cbn. split; intros [_ H]; split; auto; intros d Hd Hr; apply H; auto.
   - eapply Permutation_in; [apply Permutation_sym; exact HP | exact Hd].
   - eapply Permutation_in; [exact HP | exact Hd].
 Qed.
@@ -275,9 +281,9 @@ End Perm.
 
 (* the proviso is needed: two declarations of subroutine 1 with different explicit scopes (RECV = 1,
    FETCH = 1048576) calling subroutine 2; swapping them changes what subroutine 2 inherits *)
-Definition dup_a : decl := {| d_name := 1; d_fastly := false; d_scope := 1; d_callees := [2] |}.
-Definition dup_b : decl := {| d_name := 1; d_fastly := false; d_scope := 1048576; d_callees := [] |}.
-Definition callee2 : decl := {| d_name := 2; d_fastly := false; d_scope := 0; d_callees := [] |}.
+Definition dup_a : decl := {| d_name := 1; d_fastly := false; d_rejected := false; d_scope := 1; d_callees := [2] |}.
+Definition dup_b : decl := {| d_name := 1; d_fastly := false; d_rejected := false; d_scope := 1048576; d_callees := [] |}.
+Definition callee2 : decl := {| d_name := 2; d_fastly := false; d_rejected := false; d_scope := 0; d_callees := [] |}.
 
 Theorem decl_permutation_refuted :
   exists ds ds', Permutation ds ds' /\
